@@ -32,7 +32,7 @@ CHECKS = {
             "pairs/triples) plus all binary combinations of depth-1 trees; the round-trip laws hold on the specification; the "
             "library must build exactly the specified tree from Render(t) and Full(t) (separator variants) and again after "
             "tree_dump; in the other direction every conformance-corpus text the library parses must get the tree the "
-            "specification's parser builds from the same tokens.",
+            "specification's parser builds from the same tokens. Numeric literals as receivers ((1).f) and the literal words true / false / null in every name position are part of the texts.",
             "Trusted: TLC, the lark-tree normaliser and the token renderer of the harness. Lexical maximal munch (signs glued "
             "to numbers, 'in' glued to identifiers) is out of model.", "5/C06"),
     "C08": ("TLA+ spec CelValue (Eq, Lt, six relations per type) checked by TLC for the coherence laws; every pair of every "
@@ -40,7 +40,7 @@ CHECKS = {
             "TLC enumerates all ordered pairs of 14 same-type value pools (boundary integers, signed zeros and infinities, "
             "non-BMP strings, timestamps, durations, nested lists and permuted maps) and checks reflexivity, symmetry, negation, "
             "trichotomy, converse, transitivity and container congruence on the specification; the implementation must return "
-            "the specified truth value for each of the six relations.",
+            "the specified truth value for each of the six relations. Maps and lists holding null (a missing key is not a key holding null); timestamps written with negative offsets that have a minutes part.",
             "Trusted: TLC, BigInt, the literal renderer (own calendar arithmetic for timestamp spellings). NaN excluded.", "5/C08"),
     "C07": ("TLA+ spec CelLiteral (character-level decoder for the 16 string/bytes styles, integer and float literal denotation "
             "over BigInt) checked by TLC against the item-level denotation; every generated literal evaluated under both runners; "
@@ -48,7 +48,7 @@ CHECKS = {
             "TLC enumerates sequences of body items (plain characters incl. quotes, newline, non-BMP; every escape form) in all 16 "
             "quoting styles, and every spelling (sign, radix, leading zeros, suffix, digit case) of the int64/uint64 boundary pool "
             "plus float spellings; the model invariant ties the character-level decoder to the denotation, and the implementation "
-            "must produce the denoted code points / octets / number (or an error for out-of-range integers).",
+            "must produce the denoted code points / octets / number (or an error for out-of-range integers). Literals are also replayed repeated to 600 / 5000 characters (invariant Homomorphic), and with plain text that reads like the tail of an escape after an escaped backslash.",
             "Trusted: TLC, BigInt. Floats are compared only when the spelled decimal is exactly representable.", "5/C07"),
     "C09": ("TLA+ reference evaluator CelEval (index, lookup, in, size, concatenation, map construction, has, string functions, the "
             "five macros) and reference regular-expression matcher CelRegex (parser + end-position matcher) checked by TLC for the laws of the "
@@ -83,7 +83,7 @@ CHECKS = {
             "wrong arities included), every literal text of the C07 model (well-formed or not) and every token sequence up to the "
             "bound; the evaluator of the specification is total and its state machine has no 'Python exception' outcome, so the "
             "implementation may only return a CEL value or raise CELEvalError / a located CELParseError, renderable with str() and "
-            "repr(); accept/reject must agree with the grammar.",
+            "repr(); accept/reject must agree with the grammar. A message value bound as a variable goes through 54 member / operator / macro / conversion forms; zone arguments include names that are directories or data files of the tz database.",
             "Trusted: TLC, the outcome classifier. Lexical maximal munch is out of model.", "5/C04"),
     "C12": ("TLA+ spec CelNames (longest-prefix resolution over package levels) and CelEval (environment stack for macro variables) checked "
             "by TLC; every binding configuration x package x reference and every macro nesting replayed under both runners; random "
@@ -108,7 +108,7 @@ CHECKS = {
             "state of the model and HistoryFree is checked on each step; behaviours of that machine are replayed into the library, each "
             "in a process forked from a parent that only imported the library, and every Evaluate is compared with the specification's "
             "Outcome and with the same evaluation performed alone (cross-checked against fresh interpreters); the caller's bindings are "
-            "compared before and after; recorded random histories are accepted or rejected by the same state machine in TLC.",
+            "compared before and after; recorded random histories are accepted or rejected by the same state machine in TLC. Includes 'a failed call, then a call without bindings' for an expression that is a value without its variable (has() guarded).",
             "Trusted: TLC, os.fork isolation. fork() is slow in this sandbox, so the number of replayed histories is budgeted.", "5/C05"),
     "C10": ("TLA+ spec CelConv (decimal text over BigInt, truncation of exact dyadics, UTF-8 encode/decode, RFC 3339 and duration text) "
             "checked by TLC for the round-trip equations; every conversion x boundary value, one and two steps, replayed under both "
@@ -116,7 +116,7 @@ CHECKS = {
             "TLC applies each conversion function and 18 two-step compositions to every value of boundary pools (int64/uint64 limits, "
             "doubles around 2^63 and 2^64, NaN/inf, invalid UTF-8, timestamps at years 1/999/1000/9999, durations at the range ends, "
             "RFC 3339 and duration texts in and out of range); the round trips and truncation toward zero are model invariants and "
-            "the implementation must return the specified value or error.",
+            "the implementation must return the specified value or error. Timestamps and durations with a fraction of a second are part of the round trips.",
             "Trusted: TLC, BigInt. string(double)/double(string) are symbolic (checked as double(string(d)) == d inside CEL).", "5/C10"),
     "C11": ("TLA+ spec CelTime (proleptic Gregorian calendar, instants as BigInt microseconds, accessors under offsets, duration text) "
             "checked by TLC (calendar bijection, weekday cycle, add/sub laws); boundary instants x zones x accessors and boundary "
@@ -124,7 +124,7 @@ CHECKS = {
             "TLC enumerates every month boundary +-1 us / +-1 s of a set of years x fixed offsets and a hand-encoded zone table x the "
             "ten accessors, all arithmetic forms over boundary instants and durations (with range errors), and duration texts "
             "assembled from components; calendar invariants are checked over a sweep of day numbers; no date library is involved in "
-            "any expected value.",
+            "any expected value. Exact daylight-saving rules (New York, Paris, Sydney, 2008-2037) with instants around the twelve transitions of 2021 and 2024; duration texts beyond 2^53 microseconds with a fraction.",
             "Trusted: TLC, BigInt. IANA rules outside the hand-encoded table and inexact duration texts are out of model.", "5/C11"),
     "C15": ("TLA+ spec CelJson (ToCel, Encode, Navigate, base64 / RFC 3339 / seconds text) checked by TLC (Encode(ToCel(d)) = d, paths commute); "
             "every model document and special value replayed through json_to_cel, CELJSONDecoder, CELJSONEncoder and CEL navigation under "
@@ -132,7 +132,7 @@ CHECKS = {
             "TLC enumerates JSON documents to depth 2 over scalar pools (booleans next to 0 / 1, int64 limits, -0.0, extreme exponents, "
             "empty and non-ASCII strings / keys) and CEL timestamps, durations and bytes; the library must produce the CEL value the "
             "specification maps the document to (type tags included), serialise it back to an equal document (type-strict comparison), "
-            "and reach with .field / [\"key\"] / [i] exactly the element the path reaches in the document.",
+            "and reach with .field / [\"key\"] / [i] exactly the element the path reaches in the document. Timestamps and durations with a fraction of a second must encode as text that denotes them.",
             "Trusted: TLC, Python's json parser for number text. NaN / infinities are not JSON and are not generated.", "5/C15"),
     "C16": ("TLA+ spec CelThreads (threads = RECORDED per-line read/write programs over process-wide cells; Step(t) atomic per line) "
             "checked by TLC for NoInterference over ALL interleavings; the TLC witness and every single-preemption schedule at the recorded "
@@ -151,7 +151,7 @@ CHECKS = {
             "TLC enumerates per helper an exhaustive small input space (lists over a 3-element alphabet to length 3, glob texts / patterns "
             "over { a B * ? [ ] ! }, every prefix length 0..32 against addresses differing in single bits, versions of 1-3 components, "
             "tag lists with repeated keys and values containing ':' and '@', the three ARN shapes) and all histories of up to 4 "
-            "succeeding / failing / raising evaluations; laws (symmetry, self-containment, literal patterns) are model invariants.",
+            "succeeding / failing / raising evaluations; laws (symmetry, self-containment, literal patterns) are model invariants. Lists of 15-20 members (disjoint, overlapping in one member, equal) are replayed next to each other in one process.",
             "Trusted: TLC, the recording probe function. Glob ranges, IPv6 and pre-release versions are not modelled.", "5/C17"),
     "C18": ("TLA+ spec C7nXlate (Custodian combinator truth, truth-table contract over the atoms of the emitted text parsed by "
             "CelSyntax!Parse) checked by TLC on a reference translation; the real translator's output for every model tree is "
@@ -169,7 +169,7 @@ CHECKS = {
             "decision the named relation gives, policy strings over quotes / backslashes / control / non-ASCII characters, day and second "
             "counts, and the harness discovers every (rewriter, resource type) table entry from the translator's source; the emitted "
             "clause must give the specified match decision, each literal must decode to the original string, each duration literal "
-            "must denote the count, and every emitted text must parse.",
+            "must denote the count, and every emitted text must parse. Every clause's decision is also evaluated negated and joined with another operand, as not / and / or emit it; policy strings in which a backslash is followed by what would be a CEL escape.",
             "Trusted: TLC, the harness tokenizer. Duration literals are read in the translator's dialect (unit d).", "5/C19"),
     "C20": ("TLA+ spec CelCli (ProcessDoc steps: line_k = JSON of Eval(expr, doc_k), status = worst per-document status; -n / -b / -s / --arg) "
             "checked by TLC (per-document independence, worst status); every state run through celpy.__main__.main and a sample through "
